@@ -6,6 +6,9 @@
 #include "vsched.h"
 #include "threadpool.c"          /* compiled here so that its pthread calls are routed through vsched.h */
 #include "tbl.h"
+#include <dirent.h>
+int __lsan_do_recoverable_leak_check(void) __attribute__((weak));
+static int count_fds(void) { DIR *d = opendir("/proc/self/fd"); int n = 0; struct dirent *e; while ((e = readdir(d))) if (e->d_name[0] != '.') n++; closedir(d); return n - 1; }
 
 /* ------------------------------------------------------------ scenarios */
 static int P, J, BOUND, SPUR, UNLOCKPTS;
@@ -317,6 +320,7 @@ int main(int argc, char **argv) {
 		rmdir(dirb);
 		return vh_finish();
 	}
+	int fds_before = count_fds();
 	vh_case_begin(render, NULL);
 	/* work splitting: expand the root breadth-first until there are enough independent subtrees; every shard computes the same list */
 	item_push((const uint8_t *) "", 0, 0, 0, false);
@@ -332,6 +336,13 @@ int main(int argc, char **argv) {
 		if (vh_time_up()) break;
 		if (items[k].leaf_only) run_once(items[k].c, items[k].n, true);
 		else explore(items[k].c, items[k].n, items[k].pre, items[k].spur);
+	}
+	if (!strcmp(vh_prop, "C18")) {
+		/* resource oracle over the whole exploration: no descriptor and no unreachable heap block may remain */
+		int fds_after = count_fds();
+		if (fds_after != fds_before) vh_violation("fd", "%d descriptors were left open by the explored executions", fds_after - fds_before);
+		if (__lsan_do_recoverable_leak_check && __lsan_do_recoverable_leak_check()) vh_violation("heap", "LeakSanitizer found unreachable allocations after the explored executions (see stderr)");
+		VH_COUNT("leak_checks", 1);
 	}
 	vh_case_end();
 	vh_count("states", g_use_cache ? g_seen.n : n_exec); vh_count("subtrees_pruned_by_hb_cache", n_pruned); vh_count("executions_with_preemption", n_with_preempt);
